@@ -103,10 +103,11 @@ type Specs struct {
 	Assumes   []string        // textual list of "assume"/"trusted" occurrences
 	Owned     map[string]bool // owned map fields: "pkg.Type.field"
 	FrameSets map[string][]string
+	Unwraps   map[string]string // "pkg.Type" -> field holding the wrapped error (type has Unwrap() error)
 }
 
 func newSpecs() *Specs {
-	return &Specs{Funcs: map[string]*Contract{}, Pures: map[string]*PureDef{}, Globals: map[string][]string{}, TypeInv: map[string][]*TypeInv{}, Owned: map[string]bool{}, FrameSets: map[string][]string{}}
+	return &Specs{Funcs: map[string]*Contract{}, Pures: map[string]*PureDef{}, Globals: map[string][]string{}, TypeInv: map[string][]*TypeInv{}, Owned: map[string]bool{}, FrameSets: map[string][]string{}, Unwraps: map[string]string{}}
 }
 
 var clauseRe = regexp.MustCompile(`^(mustfail\s+)?(requires|ensures|invariant|decreases)(\[[^\]]*\])?\s+(.*)$`)
@@ -188,6 +189,14 @@ func (sp *Specs) parseSpecFile(path, pkg string) error {
 				}
 			}
 			sp.FrameSets[strings.TrimSpace(rest[:i])] = append(sp.FrameSets[strings.TrimSpace(rest[:i])], items...)
+			cur = nil
+		case strings.HasPrefix(line, "unwraps "):
+			fs := strings.Fields(strings.TrimPrefix(line, "unwraps "))
+			if len(fs) != 2 {
+				return fmt.Errorf("%s:%d: unwraps Type field", path, lineNo)
+			}
+			sp.Unwraps[pkg+"."+fs[0]] = fs[1]
+			sp.Assumes = append(sp.Assumes, "trusted: errors.Is on *"+pkg+"."+fs[0]+" follows its Unwrap method (field "+fs[1]+")")
 			cur = nil
 		case strings.HasPrefix(line, "owned "):
 			sp.Owned[pkg+"."+strings.TrimSpace(strings.TrimPrefix(line, "owned "))] = true
